@@ -2,7 +2,7 @@
 # tools/selftest.sh [id ...]   runs the check(s) of each seeded change against a scratch worktree with the change applied
 # and records which checks report a violation in seeded/<id>/detected.txt and seeded/RESULTS.md
 cd "$(dirname "$0")/.."
-declare -A EXTRA=( [C03-1]="C06" [C04-2]="C05 C15" [C05-1]="C15" [C05-2]="C15" [C08-1]="C10" [C10-2]="C08" [C09-1]="C08" [C12-1]="C08" [C08-2]="C12" [C06-2]="C13" [C13-1]="C05" [C11-2]="C07" [C19-1]="C20" [C20-2]="C19" )
+declare -A EXTRA=( [C03-1]="C06" [C04-2]="C05 C15" [C05-1]="C15" [C05-2]="C15" [C08-1]="C10" [C10-2]="C08" [C09-1]="C08" [C12-1]="C08" [C08-2]="C12" [C06-2]="C13" [C13-1]="C05" [C11-2]="C07" [C19-1]="C20" [C20-2]="C19" [C06-3]="C07" [C07-3]="C06" [C07-4]="C15" [C08-4]="C11" [C11-3]="C13" [C13-4]="C06" [C14-3]="C15" [C15-3]="C03 C06" [C15-4]="C12" [C17-4]="C07" [C19-3]="C15" [C12-3]="C08" [C04-3]="C05" [C05-3]="C04" [C05-4]="C04" [C16-3]="C14" [C17-3]="C06" )
 ids=("$@"); [ ${#ids[@]} -eq 0 ] && ids=($(ls seeded | grep -E '^C[0-9]+-[0-9]+$'))
 for id in "${ids[@]}"; do
   prop=${id%%-*}
